@@ -26,7 +26,11 @@ def _modified_b64decode(src: bytes) -> str:
     # Inspired by Twisted Python's implementation:
     #   https://twistedmatrix.com/trac/browser/trunk/LICENSE
     src_utf7 = b'+%b-' % src.replace(b',', b'/')
-    return src_utf7.decode('utf-7')
+    ret = src_utf7.decode('utf-7')
+    # the utf-7 codec lets unpaired surrogates through; such a name could
+    # never be encoded again
+    ret.encode('utf-16-be')
+    return ret
 
 
 def modutf7_encode(data: str) -> bytes:
